@@ -741,7 +741,11 @@ def suite(ctx: Ctx, on: list[str], n_random_progs: int, n_sim: int, n_random_his
             # raised by the scheduler's own bookkeeping, never a wrong value
             after_failure = any(r["out"]["outcome"] == "error" for r in h.runs[:k])
             stale = after_failure and rec["out"]["outcome"] == "error" and \
-                rec["out"].get("etype") in ("KeyError", "AssertionError", "IntegrityError")
+                (rec["out"].get("etype") in ("KeyError", "AssertionError", "IntegrityError")
+                 # a leftover job of the failed run that carries a Handle created by the previous load of the
+                 # program module completes in this run: recording it pickles an instance of the replaced class
+                 or (rec["out"].get("etype") == "PicklingError"
+                     and "not the same object" in str(rec["out"].get("msg", ""))))
             meta.append({"src": "reused-scheduler", "pi": pi + 1, "prog": prog, "run": rec["run_index"],
                          "limits": rec["limits"], "reuse": True, "stale_key": "scheduler-reuse-stale-events" if stale else None,
                          "acts": [e["c"] for e in rec["events"] if e["ev"] == "choice"],
